@@ -139,8 +139,8 @@ def check_expand(prog, rep, ctx):
         loop0 = any(c.atom[0] == "loop0" and "extend" not in "" for c in p.conds)
         if ext:
             a = strip_epochs(ext[0].args[0])
-            okdom = a[0] == "sub" and a[1] == ("f", SELF, TABLE, 0) and a[2][0] == "it" and \
-                strip_epochs(a[2][2]) == ("call", ("g", "range"), (cap,), ())
+            okdom = (a[0] == "sub" and a[1] == ("f", SELF, TABLE, 0) and a[2][0] == "it" and _whole_table(a[2][2], cap)) or \
+                (a[0] == "it" and _whole_table(a[2], cap))
             if not okdom:
                 rep.bad("C03.capture-all", where, f"collects {nshow(a)}",
                         f"the expansion collects {nshow(a)}; it must collect every bucket of range(capacity) of the old table: entries of the skipped buckets are lost", ext[0].where())
@@ -152,7 +152,7 @@ def check_expand(prog, rep, ctx):
                     good = False
         else:
             # zero-iteration variant of the collect loop is fine; but a path with no collect loop at all is not
-            if not any(c.atom[0] == "loop0" and strip_epochs(c.atom[2]) == ("call", ("g", "range"), (cap,), ()) for c in p.conds):
+            if not any(c.atom[0] == "loop0" and _whole_table(strip_epochs(c.atom[2]), cap) for c in p.conds):
                 rep.bad("C03.capture-all", where, "no collection", "the old buckets are not collected (over range(old capacity)) before the table is replaced", se.where())
                 good = False
                 break
@@ -282,6 +282,37 @@ def check_remove_and_candidates(prog, rep, ctx):
     if ok:
         rep.ok("C03.remove-guarded", where)
     candidates_stable(prog, rep, ctx, "C03.candidates-stable")
+    own_candidates(prog, rep, ctx, "C03.candidates-stable")
+
+
+def own_candidates(prog, rep, ctx, rid) -> bool:
+    """the indices handed out together with a fingerprint are the candidate indices of THAT fingerprint (the value that is stored)"""
+    gen = prog.method(ctx, "_generate_fingerprint_info")
+    ok, seen = True, False
+    for p in cpaths(prog, ctx, gen):
+        if p.exit[0] == "return" and p.exit[1][0] == "tup" and len(p.exit[1][1]) == 3:
+            seen = True
+            i1, i2, fp = (strip_epochs(x) for x in p.exit[1][1])
+            okg = all(x[0] == "sub" and x[1][0] == "ret" and x[1][1].endswith("._indicies_from_fingerprint") and strip_epochs(x[1][3][-1]) == fp for x in (i1, i2)) \
+                and {i1[2], i2[2]} == {C(0), C(1)}
+            if not okg:
+                rep.bad(rid, f"{ctx}._generate_fingerprint_info", "indices not from the fingerprint",
+                        "the indices returned with a fingerprint are not the two candidate indices of the fingerprint that is returned (and stored): the entry is placed where "
+                        "look-ups, and the re-insertion after an expansion, will not look for it", gen.where())
+                ok = False
+                break
+    if ok and seen:
+        rep.ok(rid, f"{ctx}._generate_fingerprint_info: indices are those of the returned fingerprint")
+    return ok
+
+
+def _whole_table(dom, cap) -> bool:
+    """a walk over every bucket of the (old) table: range(capacity), the bucket list itself, or its prefix [:capacity]"""
+    dom = strip_epochs(dom)
+    tab = ("f", SELF, TABLE, 0)
+    if dom == ("call", ("g", "range"), (cap,), ()) or dom == tab:
+        return True
+    return dom[0] == "slice" and dom[1] == tab and dom[2] in (C(None), C(0)) and dom[3] in (cap, C(None)) and dom[4] in (C(None), C(1))
 
 
 def candidates_stable(prog, rep, ctx, rid):
